@@ -11,8 +11,10 @@
    that trigger.  Model = the code after the repairs c7c31b7 (R3) and 4541787 (R1).
 
    Further down: the monitor level (C01_Monitor: one namespace appearing against the unlock),
-   the operator level (Op_Model / C01_OpSpec) and the history level (C01_Hist: events of a
-   namespace.labelSelector binding over histories of namespaces and objects). *)
+   the operator level (Op_Model / C01_OpSpec), the history level (C01_Hist: events of a
+   namespace.labelSelector binding over histories of namespaces and objects), the form of the
+   handler's argument (C01_Forms: a deletion found by a relist comes as a tombstone by value) and
+   histories across watch outages (C01_Relist: the reflectors' relist, Events per object). *)
 From Verif Require Import Common C01_Model C01_Spec C01_Corr C01_Proofs.
 Open Scope N_scope.
 
@@ -221,3 +223,138 @@ Proof. vm_compute. repeat split; reflexivity. Qed.
 Example C01_hist_ns_stop_is_silent :
   hist_out (mkHistIn [] [Added; Modified; Deleted] false [(1, 1, 1)] [(1, true)] [HNs 1 false]) = [].
 Proof. vm_compute. reflexivity. Qed.
+
+(* ---- the FORM of the handler's argument (C01_Forms; seeded change C01-6) ----
+   client-go hands a deletion found by a relist to OnDelete as a cache.DeletedFinalStateUnknown
+   tombstone BY VALUE.  For every sequence of handler calls in any mixture of forms that client-go
+   produces ([clientgo_wf]: tombstones in Deleted callbacks only, the tombstone's key is the carried
+   object's), every subset of event types and every schedule outside the trigger of F23: C01_Spec.P
+   holds over the changes the calls MEAN (a deletion is a deletion in either form). *)
+From Verif Require Import C01_Forms C01_FormsSpec C01_FormsProofs.
+
+Definition C01_forms_full_statement : Prop :=
+  forall fi, forallb clientgo_wf (f_dels fi) = true -> PF fi (k_of (model_input fi)) (obs_of (run_forms fi)) = true.
+
+Theorem C01_forms_no_loss_partial : forall fi,
+  forallb clientgo_wf (f_dels fi) = true -> T (model_input fi) = false ->
+  PF fi (k_of (model_input fi)) (obs_of (run_forms fi)) = true.
+Proof. exact forms_no_loss. Qed.
+Print Assumptions C01_forms_no_loss_partial.
+
+(* non-vacuity: object 1 appears and changes, object 2 appears; a relist after a broken watch finds
+   1 gone (tombstone) while the Synchronization is still running; the watch sees 2 go (object).
+   The appearance of 2 and both deletions are replayed after the unlock, in order; an observation that lacks the
+   tombstone's Deleted Event (and keeps the object in the cache) violates the predicate *)
+Example C01_forms_hyp_met :
+  let fi := mkFIn [Added; Modified; Deleted]
+                  [mkDl Added (AObj 1 1); mkDl Modified (AObj 1 2); mkDl Added (AObj 2 1);
+                   mkDl Deleted (ATomb 1 1 2); mkDl Deleted (AObj 2 1)]
+                  [StartW; StepW; StartW; StepW; StartW; StartS 0; StepW; StartW; StepW; E; StartW; StepW] in
+  forallb clientgo_wf (f_dels fi) = true /\ T (model_input fi) = false /\
+  ob_out (obs_of (run_forms fi)) = [(2, Added, 1); (1, Deleted, 2); (2, Deleted, 1)] /\
+  PF fi (k_of (model_input fi)) (mkOb [(2, Added, 1); (2, Deleted, 1)] [(0, [(1, 2); (2, 1)])] [(1, 2)] true 0 0 5 false) = false.
+Proof. vm_compute. repeat split. Qed.
+
+(* ---- histories ACROSS WATCH OUTAGES (C01_Relist; seeded change C01-6) ----
+   A history is any sequence of healthy steps (those of C01_Hist) and outages: the watch breaks
+   and cannot be resumed, objects are created / modified / deleted meanwhile, any number of
+   times, then every reflector relists and the shared informers hand the difference between their
+   store and the cluster to the handlers (Added / Modified for what is listed, Deleted as a
+   tombstone for what is gone).
+
+   C01_relist_events_exact - no hypothesis, every configuration, initial cluster and history:
+   PER OBJECT the Events handed over are exactly, and in the order of, the ones the cluster-only
+   reference demands: one per change on a healthy watch; across an outage ONE Event iff the
+   object's state when the watch is back differs (in presence, or in the part the change filter
+   looks at) from its state when the watch broke - Added / Modified with the final state,
+   Deleted -, placed after everything before the outage and before everything after it.
+   Intermediate states during an outage are collapsed; nothing else is. *)
+From Verif Require Import C01_Relist C01_RelistSpec C01_RelistProofs.
+
+Theorem C01_relist_events_exact : forall i ops k,
+  by_key k (relist_out i ops) = by_key k (rchanges_only i ops).
+Proof. exact relist_events_exact. Qed.
+Print Assumptions C01_relist_events_exact.
+
+(* without outages the class is C01_Hist *)
+Theorem C01_relist_without_outage : forall i, relist_out i (map RStep (h_ops i)) = hist_out i.
+Proof. exact relist_without_outage. Qed.
+Print Assumptions C01_relist_without_outage.
+
+(* "applying the delivered Events on top of the Synchronization view reproduces the final matching
+   state of the cluster" - per object, for every history with any number of outages, when every
+   event type is listed and no namespace step moves existing objects into or out of the matching
+   set (F24 and its documented mirror image): starting from the object's entry in the
+   Synchronization view and applying its Events in order ends at its entry in the final matching
+   state, up to what the change filter hides *)
+Theorem C01_relist_replay : forall i ops k,
+  all_listed (h_types i) = true -> quiet i ops = true ->
+  same_entry (h_filter i) (replay k (entry (h_names i) (hcluster0 i) k) (relist_out i ops))
+             (entry (h_names i) (rfinal i ops) k) = true.
+Proof. exact relist_replay. Qed.
+Print Assumptions C01_relist_replay.
+
+(* the Spec predicate RP (per-object Events as demanded, the replay clause, none before the
+   unlock) holds of the model for every history in which no healthy step brings objects along *)
+Definition C01_relist_full_statement : Prop :=
+  forall i ops, RP i ops (mkHOb (relist_out i ops) 0 false) = true.
+
+Theorem C01_relist_partial : forall i ops, RT i ops = false -> RP i ops (mkHOb (relist_out i ops) 0 false) = true.
+Proof. exact relist_P_partial. Qed.
+Print Assumptions C01_relist_partial.
+
+Theorem C01_relist_refuted_F24 : exists i ops, RT i ops = true /\ RP i ops (mkHOb (relist_out i ops) 0 false) = false.
+Proof. exact relist_refuted_F24. Qed.
+Print Assumptions C01_relist_refuted_F24.
+
+(* non-vacuity: namespaces 1 and 2 match, 3 does not; objects (1,1) and (1,2) are in the
+   Synchronization view.  First outage: (1,1) is deleted, (1,2) is changed twice - once outside
+   the jqFilter -, (1,3) is created and changed, (2,1) is created and deleted again, (3,1) is
+   created in the namespace that does not match.  Then a healthy change, a second outage in which
+   (1,3) is deleted and created again with a state the filter cannot tell from the old one and
+   (1,2) is deleted, a namespace appears, a last healthy change.  All hypotheses hold; the Events
+   are the six listed ones ((2,1), (3,1) and the re-creation of (1,3) are silent); replaying
+   them per object over the view gives the final matching state. *)
+Example C01_relist_hyp_met :
+  let i := mkHistIn [] [Added; Modified; Deleted] true [(1, 1, 1); (1, 2, 1)] [(1, true); (2, true)] [] in
+  let ops := [ROut [ODel 1 1; OSet (1, 2, 11); OSet (1, 2, 12); OSet (1, 3, 4); OSet (1, 3, 5);
+                    OSet (2, 1, 7); ODel 2 1; OSet (3, 1, 9)];
+              RStep (HSet (1, 3, 6));
+              ROut [ODel 1 3; OSet (1, 3, 16); ODel 1 2];
+              RStep (HNs 3 false); RStep (HSet (2, 2, 8))] in
+  RT i ops = false /\ all_listed (h_types i) = true /\ quiet i ops = true /\
+  relist_out i ops = [(1, 2, Modified, 12); (1, 3, Added, 5); (1, 1, Deleted, 1);
+                      (1, 3, Modified, 6); (1, 2, Deleted, 12); (2, 2, Added, 8)] /\
+  map (fun k => replay k (entry (h_names i) (hcluster0 i) k) (relist_out i ops)) [(1, 1); (1, 2); (1, 3); (2, 1); (2, 2); (3, 1)]
+  = [None; None; Some 6; None; Some 8; None] /\
+  map (entry (h_names i) (rfinal i ops)) [(1, 1); (1, 2); (1, 3); (2, 1); (2, 2); (3, 1)]
+  = [None; None; Some 16; None; Some 8; None].
+Proof. vm_compute. repeat split; reflexivity. Qed.
+
+(* the relist of ONE informer as the code runs it - the handler calls of C01_Relist.relist_calls
+   (listed objects as OnAdd / OnUpdate, vanished ones as OnDelete(tombstone)) one after the other,
+   each deciding against the cache the earlier calls left and then changing it - fires exactly
+   the events the model's [inf_relist] computes against the cache as it was when the watch
+   broke, and leaves, object by object, exactly the listed objects in the cache (what
+   [relist_mon] writes).  Hypotheses: cache and list hold one entry per object. *)
+From Verif Require C02_Proofs.
+Theorem C01_relist_call_by_call : forall types flt cache listed_objs,
+  C02_Proofs.keys_distinct cache -> C02_Proofs.keys_distinct listed_objs ->
+  fst (inf_relist_run types flt cache (relist_calls cache listed_objs)) = inf_relist types flt cache listed_objs
+  /\ forall x, lookup x (snd (inf_relist_run types flt cache (relist_calls cache listed_objs))) = lookup x listed_objs.
+Proof. exact relist_run_static. Qed.
+Print Assumptions C01_relist_call_by_call.
+
+Example C01_relist_call_by_call_hyp_met :
+  let cache := [(1, 1, 1); (1, 2, 1); (1, 4, 3)] in
+  let listed_objs := [(1, 2, 2); (1, 3, 1); (1, 4, 3)] in
+  C02_Proofs.keys_distinct cache /\ C02_Proofs.keys_distinct listed_objs /\
+  relist_calls cache listed_objs
+  = [(Modified, FObj, (1, 2, 2)); (Added, FObj, (1, 3, 1)); (Modified, FObj, (1, 4, 3)); (Deleted, FTomb, (1, 1, 1))] /\
+  inf_relist_run [Added; Modified; Deleted] false cache (relist_calls cache listed_objs)
+  = ([(1, 2, Modified, 2); (1, 3, Added, 1); (1, 1, Deleted, 1)], [(1, 2, 2); (1, 4, 3); (1, 3, 1)]).
+Proof.
+  split; [|split; [|split; vm_compute; reflexivity]];
+    cbv [C02_Proofs.keys_distinct C02_Proofs.key map o_ns o_name fst snd];
+    repeat (apply NoDup_cons; [cbn; intuition congruence|]); apply NoDup_nil.
+Qed.
